@@ -13,7 +13,7 @@ out=/verif/seeded/$name; mkdir -p "$out"
 cp "$patch" "$out/patch.diff"; cp "$demo" "$out/demo_test.go.txt"; cp "$notes" "$out/notes.md"
 cd "$scr"
 cp "$demo" "$pkgdir/zz_demo_test.go"
-clean_demo=$(go test -vet=off -count=1 -run 'Demo' "./$pkgdir/" 2>&1 | tail -3)
+clean_demo=$(go test -vet=off -count=1 -run "${DEMO_RUN:-Demo}" "./$pkgdir/" 2>&1 | tail -3)
 case "$clean_demo" in *ok*) clean=pass;; *) clean=FAIL;; esac
 rm "$pkgdir/zz_demo_test.go"
 if ! patch -p1 -s < "$patch"; then echo "PATCH-FAILED"; rm -rf "$scr"; exit 2; fi
@@ -21,7 +21,7 @@ build=$(go build ./... 2>&1 | tail -3); [ -z "$build" ] && build=ok
 tests=$(go test -vet=off -count=1 $pkgs 2>&1 | grep -E '^(--- FAIL|FAIL|panic)' | grep -v 'TestRules' | grep -v '^FAIL$' | grep -v 'rules/standard' | head -5)
 [ -z "$tests" ] && tests="pass (TestRules/PathDisallowed fails in the baseline as well)"
 cp "$demo" "$pkgdir/zz_demo_test.go"
-pd=$(go test -vet=off -count=1 -timeout 120s -run 'Demo' "./$pkgdir/" 2>&1 | tail -5)
+pd=$(go test -vet=off -count=1 -timeout 120s -run "${DEMO_RUN:-Demo}" "./$pkgdir/" 2>&1 | tail -5)
 case "$pd" in *FAIL*|*panic*) patched=fail;; *) patched=PASSES;; esac
 rm "$pkgdir/zz_demo_test.go"
 cd /verif
